@@ -241,6 +241,8 @@ def m_c10(ex):
     out, o, seen = [], ex.scn['opt'], set()
     n = ex.cfg_before['population_size']
     exact = o not in registry.VARIABLE_SIZE and not ex.scn.get('c10_bounds_only')
+    if ex.scn.get('odd_population') and o in registry.REGROUPING:
+        exact = False
     for k, g in enumerate(res.evolution):
         m = len(g.agents)
         kind = None
@@ -310,3 +312,79 @@ def run_monitors(ex, monitors=SWEEP_MONITORS):
     for m in monitors:
         out.extend(m(ex))
     return out
+
+
+# ---------------------------------------------------------------------------------------------------------------
+def utils_problems(res, minmax, idxs=None, iter_sets=None):
+    """C15 utilities vs a direct ranking of each recorded generation -> list of (what, detail)"""
+    from pyvolutionary import utils as U
+    out = []
+    G = len(res.evolution)
+    if G == 0:
+        return out
+    sizes = [len(g.agents) for g in res.evolution]
+    size = min(sizes)
+    if size == 0:
+        return out
+    if idxs is None:
+        idxs = sorted({0, 1 % size, size // 2, size - 1})
+    if iter_sets is None:
+        iter_sets = [None] + [[i] for i in range(G)] + [[G - 1, 0]]
+    rev = str(minmax) == 'max'
+
+    def ranked(i):
+        return sorted((float(a.cost) for a in res.evolution[i].agents), reverse=rev)
+    for its in iter_sets:
+        rng = list(range(G)) if its is None else list(its)
+        for idx in idxs:
+            try:
+                tr = U.agent_trend(res, idx, its)
+                ps = U.agent_position(res, idx, its)
+            except Exception as e:
+                out.append(('utility-raises', f"agent_trend/position(idx={idx}, iters={its}): {type(e).__name__}: {e}"))
+                continue
+            if len(tr) != len(rng) or len(ps) != len(rng):
+                out.append(('trend-length', f"idx={idx} iters={its}: {len(tr)} entries for {len(rng)} iterations"))
+                continue
+            for n, i in enumerate(rng):
+                want = ranked(i)[idx]
+                if not _same(tr[n], want):
+                    out.append(('agent-trend', f"idx={idx} iteration {i}: {tr[n]!r}, the {idx}-th best cost in the "
+                                f"task's direction ({minmax}) is {want!r}"))
+                    break
+                pos_ok = any(canon_num(a.position) == canon_num(ps[n]) and _same(a.cost, want)
+                             for a in res.evolution[i].agents)
+                if not pos_ok:
+                    out.append(('agent-position', f"idx={idx} iteration {i}: position {ps[n]!r} does not belong to an "
+                                f"agent of cost {want!r}"))
+                    break
+        if its is None and res.best_solution is not None:
+            try:
+                bt = U.best_agent_trend(res)
+                bp = U.best_agent_position(res)
+                if not _same(bt[-1], res.best_solution.cost):
+                    out.append(('best-agent-trend', f"last entry {bt[-1]!r} != best_solution.cost "
+                                f"{res.best_solution.cost!r}"))
+                if bt != U.agent_trend(res, 0) or bp != U.agent_position(res, 0):
+                    out.append(('best-agent-trend', 'best_agent_* differs from agent_*(idx=0)'))
+            except Exception as e:
+                out.append(('utility-raises', f"best_agent_trend: {type(e).__name__}: {e}"))
+    seen, uniq = set(), []
+    for w, d in out:
+        if w not in seen:
+            seen.add(w)
+            uniq.append((w, d))
+    return uniq
+
+
+def m_c15_utils(ex):
+    if ex.result is None or ex.dev:
+        return []
+    costs = [a.cost for g in ex.result.evolution for a in g.agents]
+    if any(math.isnan(c) for c in costs):
+        return []
+    return [('C15', f"C15|utils|{w}", f"{ex.scn['opt']} ({ex.scn.get('minmax', 'min')}): {d}")
+            for w, d in utils_problems(ex.result, ex.scn.get('minmax', 'min'))]
+
+
+SWEEP_MONITORS.append(m_c15_utils)
